@@ -758,6 +758,11 @@ func (g *G) genC15(p *Plan) {
 		if g.chance(0.5) {
 			ops = append(ops, Op{K: g.pick("get", "head"), B: b, Key: k})
 		}
+		if g.chance(0.4) {
+			// the object is deleted first, and the deletion is cut short by a
+			// disk error somewhere between its file and its metadata entry
+			ops = append(ops, Op{K: "del", B: b, Key: k, Faults: []Fault{{Kind: "eio", At: g.n(1, 8)}}})
+		}
 		c.CrashFrom = len(ops)
 		ops = append(ops, second)
 	}
